@@ -3,7 +3,9 @@
 Theorems: Props/C06.lean (streamed reader = parse-then-project; verify succeeds only when the hash matches; after
 success the utxo in use is the verified previous output; an altered previous tx with the same txid is a SHA-256d
 collision). Tie: `psbt.verify` runs parse (3 compression modes) + per-input verify + utxo + fee on embit and on the
-Lean model; the property is also evaluated directly on embit against previous transactions built independently."""
+Lean model; the property is also evaluated directly on embit against previous transactions built independently.
+Props/C06X.lean + Model/PsbtVerify.lean: `PSBT.verify(ignore_missing)` / `PSBT.is_verified` as ONE call (op
+`psbt.verifyall`): returned value or raise, the flags left behind (also when it raises half-way), utxo and fee after."""
 import hashlib
 import json
 
@@ -14,7 +16,7 @@ from gen import cs, kv, rbytes
 from embit.psbt import PSBT
 
 PROP = "C06"
-MODS = ["EmbitModel.Props.C06"]
+MODS = ["EmbitModel.Props.C06", "EmbitModel.Props.C06X"]
 
 
 def dsha(b):
@@ -110,6 +112,52 @@ def impl_verify(b, compress):
     return "ok " + " ".join(res) + " | " + " ".join(utx) + " | " + fee, (res, utx, fee, flag, whole)
 
 
+def impl_verifyall(b, compress, ign):
+    """PSBT.verify(ignore_missing=ign) as one call on a fresh parse; what it returns / that it raises, and the state
+    it leaves behind: per-input is_verified, PSBT.is_verified, utxo in use, fee"""
+    try:
+        p = PSBT.parse(b, compress=compress)
+    except Exception:
+        return "none", None
+    try:
+        r = "true" if p.verify(ignore_missing=bool(ign)) else "false"
+    except Exception:
+        r = "raise"
+    flags = ["true" if inp.is_verified else "false" for inp in p.inputs]
+    try:
+        isv = "true" if p.is_verified else "false"
+    except Exception:
+        isv = "raise"
+    utx = []
+    for i in range(len(p.inputs)):
+        try:
+            u = p.utxo(i)
+            utx.append("None" if u is None else "%d/%s" % (u.value, hx(u.script_pubkey.data)))
+        except Exception:
+            utx.append("None")
+    try:
+        fee = str(p.fee())
+    except Exception:
+        fee = "err"
+    return "ok %s | %s | %s | %s | %s" % (r, " ".join(flags), isv, " ".join(utx), fee), (r, flags, isv, utx, fee)
+
+
+def expected_verifyall(res, ign):
+    """what PSBT.verify(ignore_missing=ign) must do, from the verdicts `res` of the inputs' own
+    verify(ignore_missing=True) on a fresh parse ("true" / "false" = nothing to verify with / "raise"): the loop stops
+    at the first input whose own verify raises (with ign=0 a missing previous transaction raises too); inputs before it
+    keep their verdict, that one and the later ones are untouched (unverified on a fresh parse)"""
+    stop = None
+    for i, r in enumerate(res):
+        if r == "raise" or (r == "false" and not ign):
+            stop = i
+            break
+    n = len(res) if stop is None else stop
+    flags = ["true" if (i < n and res[i] == "true") else "false" for i in range(len(res))]
+    isv = "true" if all(f == "true" for f in flags) else "false"
+    return ("raise" if stop is not None else isv), flags, isv
+
+
 def case(c, kind, version, ins, outs, truth):
     """truth[i] = None (no claim) or dict(hash_ok: bool, out: (value, spk) or None, consistent: bool)"""
     b = build(version, ins, outs)
@@ -131,6 +179,36 @@ def case(c, kind, version, ins, outs, truth):
         if whole != want_whole:
             c.fail("PSBT.verify() gives %s although the inputs verify as %s" % (whole, res),
                    dict(info, op="psbt.verify()", results=res))
+        # PSBT.verify(ignore_missing) as one call: model (Model/PsbtVerify.lean) and, independently of the model, the
+        # loop semantics derived from the inputs' own verdicts
+        for ign in (0, 1):
+            s2, got = impl_verifyall(b, compress, ign)
+            c.count(("verifyall", compress, ign, b), nontrivial=True)
+            info2 = dict(info, ign=ign)
+            c.expect("psbt.verifyall %d %d %s" % (compress, ign, hx(b)), s2, info2, proven=True)
+            if got is None:
+                continue
+            r, flags, isv, utx2, fee2 = got
+            c.tally("verifyall:%s:ign%d" % (r, ign))
+            if r == "raise" and "true" in flags:
+                c.tally("verifyall:raised-half-way")
+            wr, wflags, wisv = expected_verifyall(res, ign)
+            if (r, flags, isv) != (wr, wflags, wisv):
+                c.fail("PSBT.verify(ignore_missing=%s) gives %s, flags %s, is_verified %s; the inputs' own verdicts %s demand %s, %s, %s"
+                       % (bool(ign), r, flags, isv, res, wr, wflags, wisv),
+                       dict(info2, op="psbt.verifyall", results=res, got=[r, flags, isv]))
+            for i, t in enumerate(truth):
+                if t is None or flags[i] != "true":
+                    continue
+                rec = dict(info2, op="psbt.verifyall", input=i, utxo=utx2[i])
+                if not t["hash_ok"]:
+                    c.fail("PSBT.verify left input %d verified although its previous transaction does not hash to the outpoint txid (%s)" % (i, kind), rec)
+                elif t["out"] is not None and utx2[i] != "%d/%s" % (t["out"][0], hx(t["out"][1])):
+                    c.fail("after PSBT.verify the utxo in use for verified input %d is not the verified previous output (%s)" % (i, kind), rec)
+            if r == "true" and all(t is not None and t["out"] is not None for t in truth):
+                exp = sum(t["out"][0] for t in truth) - sum(v for v, _ in outs)
+                if fee2 != str(exp):
+                    c.fail("fee after PSBT.verify() differs from the verified amounts", dict(info2, op="psbt.fee", fee=fee2, expected=exp))
         for i, t in enumerate(truth):
             if t is None:
                 continue
@@ -275,6 +353,36 @@ def explore(c, n):
         ins[j]["pairs"] = [wu(o[0], o[1])]
         tr = list(truth); tr[j] = None
         case(c, "witness-utxo-only", version, ins, outs, tr)
+        # several inputs altered at once: each input independently keeps its previous transaction, lacks it
+        # (nothing / witness_utxo only), or carries a wrong one -- so PSBT.verify raises half-way, after verified inputs
+        for _ in range(3):
+            n2 = rng.randrange(2, 6)
+            pv = [gen_prev(rng) for _ in range(n2)]
+            ins, tr = [], []
+            for pp in pv:
+                ix = rng.randrange(len(pp["vout"]))
+                txid = dsha(ser_prev(pp, witness=False))[::-1]
+                oo = pp["vout"][ix]
+                how = rng.choice(["good", "good", "good", "missing", "witness-only", "wrong", "wrong-txid", "contradict"])
+                pairs = [(b"\x00", ser_prev(pp))]
+                t = {"hash_ok": True, "out": oo, "consistent": True}
+                if how == "missing":
+                    pairs, t = [], None
+                elif how == "witness-only":
+                    pairs, t = [wu(oo[0], oo[1])], None
+                elif how == "wrong":
+                    q7 = dict(pp); q7["locktime"] = pp["locktime"] ^ 1
+                    pairs, t = [(b"\x00", ser_prev(q7))], {"hash_ok": False, "out": None, "consistent": True}
+                elif how == "wrong-txid":
+                    tb = bytearray(txid); tb[rng.randrange(32)] ^= 1 << rng.randrange(8); txid = bytes(tb)
+                    t = {"hash_ok": False, "out": None, "consistent": True}
+                elif how == "contradict":
+                    pairs = pairs + [wu(oo[0] + 1, oo[1])]
+                    t = {"hash_ok": True, "out": oo, "consistent": False}
+                ins.append({"txid": txid, "vout": ix, "seq": gen.pick_u32(rng), "pairs": pairs,
+                            "v2first": rng.random() < 0.7, "v2order": rng.randrange(3)})
+                tr.append(t)
+            case(c, "mixed", version, ins, outs, tr)
         if k == 0:
             c.sample({"psbt": hx(build(version, base, outs))[:400]})
         if k % 10 == 9:
@@ -288,7 +396,9 @@ def run(tier, seed):
               "segwit, 1-3 inputs, 1-4 outputs, outpoint index anywhere in range); structured alterations of the previous "
               "transaction (amount, script, locktime, version, sequence, witness only), of the outpoint (txid bit, index, index "
               "out of range), of an accompanying witness_utxo (equal, other amount, other script), byte-level mutations and "
-              "wrong lengths; each in KEEP_ALL, CLEAR_ALL and PARTIAL parse modes. Distinct by content.")
+              "wrong lengths; PSBTs of 2-5 inputs each of which independently keeps, lacks (nothing / witness_utxo only) or "
+              "carries a wrong previous transaction / outpoint txid / contradicting witness_utxo; each in KEEP_ALL, "
+              "CLEAR_ALL and PARTIAL parse modes; PSBT.verify as one call with ignore_missing False and True. Distinct by content.")
     c.assumptions = ["'fails for every alteration' is decided up to SHA-256d collisions (theorem altered_prev_is_collision)"]
     c.build_and_audit()
     explore(c, 25 if tier == "quick" else 500)
@@ -302,4 +412,7 @@ def replay(path):
     for cmode in (0, 1, 2):
         print(cmode, "impl :", impl_verify(b, cmode)[0][:500])
         print(cmode, "model:", run_driver(["psbt.verify %d %s" % (cmode, hx(b))])[0][:500])
+        for ign in (0, 1):
+            print(cmode, ign, "impl  verifyall:", impl_verifyall(b, cmode, ign)[0][:500])
+            print(cmode, ign, "model verifyall:", run_driver(["psbt.verifyall %d %d %s" % (cmode, ign, hx(b))])[0][:500])
     return 0
